@@ -225,7 +225,9 @@ ORACLES = {
                     'None (names may be None)', 200, 3000, nvars=1, depth=3, neg=True, nested_neg=True, n=5, equal_values=True,
                     none_names=True, vocab=['cmp', 'name', 'none', 'contains', 'call']),
             _oracle('single-variable, comparisons with the constant None', 100, 1500, nvars=1, depth=2, neg=True, none_names=True,
-                    vocab=['cmp', 'name', 'none'])],
+                    vocab=['cmp', 'name', 'none']),
+            _oracle('one comparison object standing at two places of the condition (and_ / or_ nestings)', 100, 1500, kind='reuse',
+                    shared_condition=True)],
     'C02': [_oracle('two variables over distinct objects that compare equal, join conditions', 100, 1500, nvars=2, depth=2, neg=False,
                     n=4, equal_values=True, vocab=['cmp', 'name']),
             _oracle('two variables, join conditions', 150, 2000, nvars=2, depth=2, neg=False, vocab=['cmp', 'name']),
@@ -333,7 +335,12 @@ ORACLES = {
             _oracle('histories (result cache off)', 100, 1500, kind='history', caching=False),
             _oracle('histories over a domain that lists an object twice', 100, 1500, kind='history', duplicates=True),
             _oracle('rule trees evaluated three times (a user-made instance of the concluded type is in the registry)', 150, 3000,
-                    kind='rdrtree', rules=5, depth=2, evals=3)],
+                    kind='rdrtree', rules=5, depth=2, evals=3),
+            _oracle('rule trees evaluated after an evaluation that was abandoned after a few results', 300, 5000, kind='rdrtree',
+                    rules=5, depth=2, abandon=True),
+            _oracle('the same over two variables', 300, 5000, kind='rdrtree', nvars=2, rules=5, depth=3, n=3, abandon=True),
+            _oracle('a rule with a consequent rule (next_rule), evaluated three times, also after an abandoned evaluation', 150,
+                    2000, kind='nextrule', abandon=True)],
     'C05': [_oracle('result cache on vs off, first evaluation and re-evaluation', 250, 4000, kind='cache'),
             _oracle('result cache on vs off, literal-free conditions (the ones that hit the operator caches)', 250, 4000, kind='cache',
                     nolit=True),
